@@ -206,7 +206,11 @@ impl Env {
         e.resolver = None;
     }
     pub fn set_resolver(&self, r: Resolver) {
-        self.0.borrow_mut().resolver = Some(r);
+        // a new script starts at its first frame in every slot (two RxcListen steps in a row never
+        // pass through begin_transaction)
+        let mut e = self.0.borrow_mut();
+        e.slot_counts = [0; 5];
+        e.resolver = Some(r);
     }
     /// Next scripted frame for `slot`, if any.
     pub fn next_frame(&self, slot: Slot) -> Option<Vec<u8>> {
